@@ -56,6 +56,11 @@ def genhistCase (id : String) (payload : List Sexp) : List String :=
   let aio := (atoms (p.field? "mode")).headD "sep" == "aio"
   let aioName := (atoms (p.field? "aio")).headD "t.shootnew.go"
   let parse (k : String) : Option (List NType) := ((p.field? k).map Sexp.args |>.getD []).mapM parseNType
+  if (atoms (p.field? "cmd")).headD "new" != "new" then
+    -- map / enum / rest never read generated files back (C07_fixpoint_partial): every history gives the same run
+    let all := [("repeat", "true"), ("stale", "true")] ++ (if aio then [] else [("back", "true"), ("back-aio", "true")])
+    both id all all "WF"
+  else
   match parse "types", parse "edited", parse "alltypes" with
   | some ts, some es, some alls =>
     let m := newMachine codeToday fl
